@@ -74,7 +74,13 @@ func casesFor(f *Fed, opset string) []Case {
 		return GenOps(f.Merged, f.W, k, ast.Query)
 	case strings.HasPrefix(opset, "mutK"):
 		k, _ := strconv.Atoi(opset[4:])
-		return GenOps(f.Merged, f.W, k, ast.Mutation)
+		out := GenOps(f.Merged, f.W, k, ast.Mutation)
+		for _, c := range HandOps(f) {
+			if strings.HasPrefix(strings.TrimSpace(c.Q), "mutation") {
+				out = append(out, c)
+			}
+		}
+		return out
 	case strings.HasPrefix(opset, "decK"):
 		k, _ := strconv.Atoi(opset[4:])
 		var out []Case
@@ -172,7 +178,8 @@ func c01Jobs(tier string) []string {
 	add(EnumWorlds([]string{"Wfan"}, 0, 0), "s1c", "plainK5")
 	// null entries need a nullable list to show: paired explicitly in every tier
 	for _, w := range []string{"W0+root-nullable-list+data-null-entries", "W0+union-list+data-null-entries", "W0+entity-list-nullable+data-null-entries",
-		"W0+interface-value+data-null-entries", "W0+ts-interface-chain+data-null-entries", "W0+root-nullable-list+data-null-refs"} {
+		"W0+interface-value+data-null-entries", "W0+ts-interface-chain+data-null-entries", "W0+root-nullable-list+data-null-refs",
+		"W0+root-nullable-list+data-only-null-entries", "W0+union-list+data-only-null-entries", "W0+entity-list-nullable+data-only-null-entries"} {
 		jobs = append(jobs, w+"|e0p|plainK4", w+"|s1c|plainK3")
 	}
 	if tier == "quick" {
